@@ -33,6 +33,20 @@ Theorem C05_roundtrip_all_schemas : forall t, In t all_schemas ->
   forall v rest, wfb t v = true -> decode t (encode t v ++ rest) = Some (v, rest).
 Proof. intros t H. exact (decode_encode t (schema_ok t H)). Qed.
 
+(* decode is not injective (overlong varints, unnormalised durations are accepted), but what it
+   returns is a value of the type, and re-encoding that value is a fixed point of decoding:
+   comparing canonical re-encodings (what the correspondence check does) is comparing values *)
+Theorem postcard_decode_canonical : forall t, ty_ok t = true ->
+  forall inp v rest, decode t inp = Some (v, rest) ->
+  wfb t v = true /\ forall r', decode t (encode t v ++ r') = Some (v, r').
+Proof. intros t Hok inp v rest H. split; [exact (decode_wf t Hok inp v rest H)|exact (decode_canonical t Hok inp v rest H)]. Qed.
+
+(* the executable UTF-8 validator accepts the UTF-8 encoding of every string of Unicode
+   scalar values (so [wfb Str] is inhabited by every Rust String) *)
+Theorem postcard_utf8_accepts_scalars : forall cs,
+  forallb scalar cs = true -> utf8_valid (flat_map utf8_enc cs) = true.
+Proof. exact utf8_string_valid. Qed.
+
 (* allocation bound: whatever the input claims in its length prefixes and counts, a decoded
    value holds at most as many dynamically sized items (sequence elements, string and buffer
    bytes, at every nesting depth) as input bytes were consumed; every other part of the value
